@@ -192,10 +192,10 @@ ENTRIES = ['sdof.response_series', 'sdof.response_series[list]', 'sdof.nigam_and
            'AccSignal.response_series[arg]', 'AccSignal.response_series[preset,default xi]']
 
 
-def mk_case(entry, rec, dt, periods, xi, cfs, out, rtol, klass):
+def mk_case(entry, rec, dt, periods, xi, cfs, out, rtol, klass, glob=False):
     u, v, a = [np.atleast_2d(np.array(x, dtype=float)) for x in out]
-    coq = ('{| c_c2pi := %s; c_xi := %s; c_periods := %s; c_rec := %s; c_cfs := %s; c_u := %s; c_v := %s; c_a := %s; c_rtol := %s |}'
-           % (q(C2PI), q(xi), qlist(periods), qlist(rec), qmat(cfs), qmat(u), qmat(v), qmat(a), q(rtol)))
+    coq = ('{| c_c2pi := %s; c_xi := %s; c_periods := %s; c_rec := %s; c_cfs := %s; c_u := %s; c_v := %s; c_a := %s; c_rtol := %s; c_global := %s |}'
+           % (q(C2PI), q(xi), qlist(periods), qlist(rec), qmat(cfs), qmat(u), qmat(v), qmat(a), q(rtol), 'true' if glob else 'false'))
     rp = {'function': entry, 'args': {'dt': dt, 'xi': xi, 'periods': list(map(float, periods)), 'values': list(map(float, rec))}}
     nz = bool(np.any(np.array(rec) != 0)) and len(cfs) > 0
     return Case(coq, rp, entry, nontrivial=nz, klass=klass)
@@ -292,7 +292,7 @@ def run(rep, rng, tier):
         if not all(np.all(np.isfinite(np.array(x))) for x in out):
             rep.violation(entry, {'function': entry, 'args': {'dt': dt, 'xi': xi, 'periods': periods, 'values': list(rec)}, 'impl_error': 'non-finite output'})
             continue
-        cases.append(mk_case(entry, rec, dt, periods, xi, cfs, out, 1e-9, '%s/%s/%s' % (entry, kind, 'lead0' if lead0 else 'nolead')))
+        cases.append(mk_case(entry, rec, dt, periods, xi, cfs, out, 1e-12, '%s/%s/%s' % (entry, kind, 'lead0' if lead0 else 'nolead')))
     # injected dyadic coefficients: the implementation's loop runs on exactly representable numbers -> exact comparison
     real = sdof.compute_a_and_b
     try:
@@ -315,12 +315,12 @@ def run(rep, rng, tier):
                 rep.violation(entry, {'function': entry + '[injected coefficients]', 'args': {'xi': xi, 'periods': periods, 'values': list(rec), 'coeffs': tab.tolist()}, 'impl_error': str(out)})
                 continue
             cfs = [[tab[j][i] for j in range(8)] for i in range(nper)]
-            c = mk_case(entry, rec, 0.25, periods, xi, cfs, out, 1e-13, 'injected/%s/%s' % (kind, 'lead0' if lead0 else 'nolead'))
+            c = mk_case(entry, rec, 0.25, periods, xi, cfs, out, 1e-13, 'injected/%s/%s' % (kind, 'lead0' if lead0 else 'nolead'), glob=True)
             c.replay['injected_coefficients'] = tab.tolist()
             cases.append(c)
     finally:
         sdof.compute_a_and_b = real
-    rep.correspond('model.K_C01', 'check_case', cases, max_cases=40, max_bytes=3_000_000, timeout=1500)
+    rep.correspond('model.K_C01', 'check_case', cases, max_cases=60, max_bytes=3_000_000, timeout=900)
 
     # rounding clause (test, not proof): implementation vs the independent 50-digit exact solution within the property's bound;
     # always run as the search when the translator / proof / point checks broke, and in the thorough tier.
